@@ -553,11 +553,25 @@ class GAM(Core, MetaTermMixin):
             # the rounding error of the factorization. factor A through its
             # eigendecomposition instead, so that the model is not changed:
             # eigenvalues below the rounding level are those of the ridge
+            # A is block diagonal (one block per term): each block is factored
+            # on its own, so that the rounding level of a heavily penalized
+            # term does not erase the penalty of the other terms
             Ad = A.toarray() if sp.sparse.issparse(A) else np.asarray(A)
-            w, V = np.linalg.eigh((Ad + Ad.T) / 2.0)
-            if np.isfinite(w).all() and w.max() > 0:
-                w[w < A.shape[0] * EPS * w.max()] = np.sqrt(EPS)
-                L = (V * np.sqrt(w)).T
+            Ad = (Ad + Ad.T) / 2.0
+            _, labels = sp.sparse.csgraph.connected_components(
+                sp.sparse.csr_matrix(Ad != 0), directed=False
+            )
+            L = np.zeros_like(Ad, dtype='float64')
+            ok = True
+            for label in np.unique(labels):
+                idx = np.flatnonzero(labels == label)
+                w, V = np.linalg.eigh(Ad[np.ix_(idx, idx)])
+                if not np.isfinite(w).all() or w.max() <= 0:
+                    ok = False
+                    break
+                w[w < len(idx) * EPS * w.max()] = np.sqrt(EPS)
+                L[np.ix_(idx, idx)] = (V * np.sqrt(w)).T
+            if ok:
                 if kwargs.get('sparse', True):
                     return sp.sparse.csc_matrix(L)
                 return L
